@@ -881,6 +881,9 @@ class ServiceDiscover:
             self.service_offer_stopped(addr, entry)
             return
         if not self.is_watching_service(entry):
+            # nobody is interested (any more). Forget what was found earlier: keeping the
+            # entry with its old TTL would let it outlive this, more recent, offer
+            self.service_offer_stopped(addr, entry)
             return
         self.service_offered(addr, entry)
 
